@@ -233,4 +233,18 @@ CHECKS = {
               '(truncation at every offset, length field larger/smaller, garbage) are judged by the predicate only.'),
         note=COMMON_NOTE + 'RuntimeError is the model stand-in for text codecs it does not describe (excluded by hypothesis; those PDUs go to the real session and are judged by the predicate). Hooks and transport writes are assumed not to fail here. The decoder model is the one tied to protocol.py by the C03/C04/C20 correspondences.',
         technique='Lean 4 theorems (compositional exception-class analysis of the decoder, kernel-checked coverage of the regenerated catch matrix); differential correspondence through a real session on a virtual-time loop'),
+    'C06': dict(
+        text=('Proof. Props/C06.lean over the model of one _dequeue_messages iteration (segmentation decision of esme.py 445-490, '
+              'clone with SAR parameters, pdu() of each message): failure_classes - for EVERY SubmitSm whose optional parameters the '
+              'OptionalParam constructor accepts, every default alphabet and reference number, whatever fails is a ValueError, '
+              'UnicodeError, LookupError or struct.error (compositional proof over encoder, text codecs, time strings, TLVs, splitters and '
+              'cloning; the SAR parameters the sender adds are acceptable ones); continues_after - each of these is an instance of a '
+              'class in the isinstance tuple of esme.py after which the loop goes on, REGENERATED from the source (Gen/Catch); hence '
+              'sender_survives. Tied to esme.py by queueing constructible messages (C03 field space with values the wire does not '
+              'allow, every text length class in GSM/UCS2/mixed/astral, auto_message_payload on/off, UDHI on/off, explicit and unknown '
+              'encodings, error_handling values) to a real bound session on the virtual-time loop: the PDUs written (octet for octet, '
+              'all segments) or the error class handed to send_error equal the model. Observed, not proved: send_error exactly once, '
+              'the message queued next is transmitted, start() keeps running.'),
+        note=COMMON_NOTE + 'RuntimeError is the model stand-in for text codecs it does not describe (excluded by hypothesis; such messages go to the real session and are judged by the predicate). Hooks, rate limiter and transport writes are assumed not to fail here.',
+        technique='Lean 4 theorems (compositional exception-class analysis of the encoder and the sender iteration, kernel-checked coverage of the regenerated isinstance tuple); differential correspondence through a real session on a virtual-time loop'),
 }
